@@ -61,6 +61,8 @@ template <int K> struct SlotOps;
     static std::string Get() { TL v; auto& r = v.Get(); return TO; }                \
     static void Set(long x) { TL v; v.Get() = FROM; }                               \
     static void Clear() { TL v; v.Clear(); }                                        \
+    static TL& Shared() { static TL* p = new TL(); return *p; }                     \
+    static void SharedInit(long x) { Shared().Initialize(FROM); }                   \
   };
 using S0 = nop::ThreadLocalSlot<Tag, 0>;
 using S1 = nop::ThreadLocalSlot<Tag, 1>;
@@ -76,6 +78,8 @@ template <> struct SlotOps<5> {
   static std::string Get() { DefaultTL v; return std::to_string(v.Get()); }
   static void Set(long x) { DefaultTL v; v.Get() = static_cast<int>(x); }
   static void Clear() { DefaultTL v; v.Clear(); }
+  static DefaultTL& Shared() { static DefaultTL* p = new DefaultTL(); return *p; }
+  static void SharedInit(long x) { Shared().Initialize(static_cast<int>(x)); }
 };
 
 template <int K>
@@ -83,6 +87,7 @@ void SlotOp(char c, long x, bool* full, std::string* obs) {
   switch (c) {
     case 'N': SlotOps<K>::New(x); *full = true; break;
     case 'I': SlotOps<K>::Init(x); *full = true; break;
+    case 'J': SlotOps<K>::SharedInit(x); *full = true; break;   // Initialize() through an object the main thread constructed
     case 'G': *obs = "G:" + (*full ? SlotOps<K>::Get() : std::string("none")); break;   // Get() on an empty cell is undefined: not called
     case 'S': if (*full) SlotOps<K>::Set(x); break;
     case 'C': SlotOps<K>::Clear(); *full = false; break;
@@ -171,7 +176,7 @@ void RunScript(const std::vector<std::string>& ops, std::uint64_t seed, bool con
     long x0 = a.size() > 0 && !a[0].empty() ? std::stol(a[0]) : 0;
     long x1 = a.size() > 1 ? std::stol(a[1]) : 0;
     switch (c) {
-      case 'N': case 'I': case 'G': case 'S': case 'C':
+      case 'N': case 'I': case 'J': case 'G': case 'S': case 'C':
         switch (x0) {
           case 0: SlotOp<0>(c, x1, &full[0], &obs); break;
           case 1: SlotOp<1>(c, x1, &full[1], &obs); break;
@@ -198,6 +203,8 @@ void RunScript(const std::vector<std::string>& ops, std::uint64_t seed, bool con
 
 int main() {
   std::ios::sync_with_stdio(false);
+  // ThreadLocal objects constructed by the main thread and shared with every thread (never initialised here)
+  SlotOps<0>::Shared(); SlotOps<1>::Shared(); SlotOps<2>::Shared(); SlotOps<3>::Shared(); SlotOps<4>::Shared(); SlotOps<5>::Shared();
   std::string line;
   while (std::getline(std::cin, line)) {
     if (line.empty() || line[0] == '#') { std::cout << line << "\n"; continue; }
